@@ -52,22 +52,37 @@ Proof.
   - unfold u_lsh. rewrite wrap_mod. reflexivity.
 Qed.
 
-(* the machine only looks at the value of the operation, so pointwise equal operations give equal runs *)
+(* validJumpdest with the analysis computed once per code (as Contract.analysis caches it): partially
+   applied to the code it evaluates codeBitmap and returns the test on destinations *)
+Definition jd_cached (c : code) : Z -> bool :=
+  let bm := code_bitmap c in
+  let n := clen c in
+  fun d =>
+    if negb (u_is_uint64 d) || (n <=? d) then false
+    else if negb (cnth c d =? 91) then false
+    else code_segment bm d.
+
+Lemma jd_cached_eq c d : jd_cached c d = valid_jumpdest c d.
+Proof. reflexivity. Qed.
+
+(* the machine only looks at the values of the word operation and of the jump test on its own code, so
+   pointwise equal operations and tests give equal runs *)
 Section Ext.
   Variables op1 op2 : op -> Z -> Z -> Z -> Z.
   Hypothesis Hop : forall o x y z, op1 o x y z = op2 o x y z.
-  Variable jd : code -> Z -> bool.
+  Variables jd1 jd2 : code -> Z -> bool.
   Variable P : params.
   Variable c : code.
+  Hypothesis Hjd : forall d, jd1 c d = jd2 c d.
   Variable input : list Z.
 
-  Lemma exec_ext k opc st : exec op1 jd c input k opc st = exec op2 jd c input k opc st.
+  Lemma exec_ext k opc st : exec op1 jd1 c input k opc st = exec op2 jd2 c input k opc st.
   Proof.
     destruct k; cbn [exec]; try reflexivity;
-      destruct (s_stk st) as [|a [|b [|d r]]]; rewrite ?Hop; reflexivity.
+      destruct (s_stk st) as [|a [|b [|d r]]]; rewrite ?Hop, ?Hjd; reflexivity.
   Qed.
 
-  Lemma step_ext st : step op1 jd P c input st = step op2 jd P c input st.
+  Lemma step_ext st : step op1 jd1 P c input st = step op2 jd2 P c input st.
   Proof.
     unfold step.
     repeat match goal with
@@ -85,17 +100,23 @@ Section Ext.
              end; try reflexivity; apply exec_ext.
   Qed.
 
-  Lemma run_ext fuel : forall st, run op1 jd P c input fuel st = run op2 jd P c input fuel st.
+  Lemma run_ext fuel : forall st, run op1 jd1 P c input fuel st = run op2 jd2 P c input fuel st.
   Proof.
     induction fuel as [|k IH]; intros st; [reflexivity|].
-    cbn [run]. rewrite step_ext. destruct (step op2 jd P c input st); [apply IH|reflexivity].
+    cbn [run]. rewrite step_ext. destruct (step op2 jd2 P c input st); [apply IH|reflexivity].
   Qed.
-
-  Lemma call_ext fuel gas : call op1 jd P c input fuel gas = call op2 jd P c input fuel gas.
-  Proof. unfold call. destruct c eqn:E; [reflexivity|]. rewrite <- E. apply run_ext. Qed.
 End Ext.
 
-Definition run_fast := call fast_op valid_jumpdest.
+Lemma call_ext op1 op2 jd1 jd2 P c input fuel gas :
+  (forall o x y z, op1 o x y z = op2 o x y z) -> (forall d, jd1 c d = jd2 c d) ->
+  call op1 jd1 P c input fuel gas = call op2 jd2 P c input fuel gas.
+Proof. intros Ho Hj. unfold call. destruct c eqn:E; [reflexivity|]. rewrite <- E in *. apply run_ext; assumption. Qed.
+
+Definition run_fast (P : params) (c : code) (input : list Z) (fuel : nat) (gas : Z) : outcome * Z :=
+  let jd := jd_cached c in
+  call fast_op (fun _ => jd) P c input fuel gas.
 
 Theorem run_fast_eq P c input fuel gas : run_fast P c input fuel gas = run_impl P c input fuel gas.
-Proof. unfold run_fast, run_impl. apply call_ext. apply fast_op_eq. Qed.
+Proof.
+  unfold run_fast, run_impl. cbv zeta. apply call_ext; [apply fast_op_eq|apply jd_cached_eq].
+Qed.
